@@ -61,7 +61,13 @@ def check(chk):
              and len(n.args) == 2 and src(n.args[1]) == 'self.cql_encode_object' and src(n.args[0]).startswith('type(')]
     # the general form: the fallback walks the value's class hierarchy and uses the encoder of the closest supported base, so that a
     # subclass of *any* supported type (bytes, float, datetime ...) is encoded like its base and never through str()
-    mro_walk = [lp for lp in body_walk(ceo) if isinstance(lp, ast.For) and '__mro__' in src(lp.iter) and
+    def _whole_mro(it):
+        # type(val).__mro__ or a slice of it that starts no later than the first base
+        if isinstance(it, ast.Subscript) and isinstance(it.slice, ast.Slice):
+            lo = it.slice.lower
+            return it.slice.upper is None and it.slice.step is None and (lo is None or (isinstance(lo, ast.Constant) and lo.value in (0, 1)))
+        return isinstance(it, ast.Attribute)
+    mro_walk = [lp for lp in body_walk(ceo) if isinstance(lp, ast.For) and '__mro__' in src(lp.iter) and _whole_mro(lp.iter) and
                 any(isinstance(x, ast.Call) and src(x.func) == 'self.mapping.get' for x in ast.walk(lp)) and any(isinstance(x, ast.Return) for x in ast.walk(lp))]
     aware = aware or bool(mro_walk)
     if len(sites) < 6:
